@@ -64,6 +64,7 @@ IsIdentity(A) == A = <<SA, 0, 0, SA, 0, 0>>
 (* tolerance 0.001, the linear part of A x 10^8 and its translation x 10^4 (E). *)
 (* The products exceed TLC's 32-bit integers, so they are formed from base-10^4 *)
 (* halves: x * a = Q * SF + R exactly, a value is the pair <<Q, R>> = Q + R/SF.  *)
+(* (MulQ, NegQ and AddQ are proved exact in spec/proofs/WideMul.tla with TLAPS.)  *)
 (***************************************************************************)
 SF == 100000000
 B4 == 10000
